@@ -369,7 +369,7 @@ class Repo:
                                 and c_.func.id != sym and c_.func.id not in m.imports \
                                 and c_.func.id not in {n_.id for n_ in ast.walk(m.tree) if isinstance(n_, ast.Name)}:
                             todo.append((c_.func.id, mod, c_.func.id))
-                    h_locals = {a.arg for a in h.args.args} | normalize.mutated_names(h, calls=False) \
+                    h_locals = normalize._fn_params(h) | normalize.mutated_names(h, calls=False) \
                         | normalize._comp_targets(h)
                     free = {n.id for n in ast.walk(h) if isinstance(n, ast.Name)} - h_locals
                     names_in_m = {n.id for n in ast.walk(m.tree) if isinstance(n, ast.Name)} | set(bindings[m.name])
@@ -429,6 +429,7 @@ class Repo:
             key.update(repr(sorted((k, sorted(v)) for k, v in normalize.MUTATORS.items())).encode())
             key.update(repr(sorted(normalize.KNOWN_FUNCS)).encode())
             key.update(repr(sorted((k_, v_) for k_, v_ in normalize.SIGNATURES.items())).encode())
+            key.update(repr(sorted((k_, sorted(v_)) for k_, v_ in normalize.FLAG_PARAMS.items())).encode())
             key.update(repr(sorted((k_, sum(1 for r_ in ast.walk(v_) if isinstance(r_, ast.Return) and isinstance(r_.value, ast.Tuple)),
                                     max([len(r_.value.elts) for r_ in ast.walk(v_) if isinstance(r_, ast.Return) and isinstance(r_.value, ast.Tuple)] or [0]))
                                    for k_, v_ in normalize.ARITY_HELPERS.items())).encode())
@@ -602,11 +603,18 @@ class Repo:
     def func(self, module: str, name: str) -> FuncInfo:
         mi = self.module(module)
         if name not in mi.functions:
+            # a function that was moved to another module of the package and is imported back under the same name is
+            # still the function of that name of this module
+            moved = self.resolve_symbol(module, name) if '.' not in name else None
+            if moved is not None:
+                return moved
             raise FrontEndError(f"anchor vanished: function {name} not found in {mi.path}")
         return mi.functions[name]
 
     def has_func(self, module: str, name: str) -> bool:
-        return module in self.modules and name in self.modules[module].functions
+        if module in self.modules and name in self.modules[module].functions:
+            return True
+        return module in self.modules and '.' not in name and self.resolve_symbol(module, name) is not None
 
     def all_functions(self, pyx: Optional[bool] = None) -> List[FuncInfo]:
         out = []
